@@ -79,30 +79,30 @@ def relabel(df: pd.DataFrame, how: int) -> pd.DataFrame:
 
 
 def call_fit(prod, pvt, *, spy: bool, positional: bool = False, **kw):
-    """fit_production_pressure with lmfit.Minimizer observed from the harness side.
-    spy=False: recorder only (the minimisation is not run).  Returns (outcome, captured, result)."""
-    import lmfit  # noqa: PLC0415
+    """fit_production_pressure observed from the harness side, without assuming how the library hands its data to lmfit:
+    every lmfit Minimizer that is constructed (directly, through lmfit.minimize, under whatever name the module imports it) is
+    recorded with its objective, its Parameters (the declared limits) and the way the objective is called.
+    spy=False: recorder only (minimize() is not run).  Returns (outcome, captured, result); see observe()."""
+    import lmfit.minimizer as lmm  # noqa: PLC0415
     from bluebonnet.forecast import forecast_pressure as fpm  # noqa: PLC0415
 
     cap: dict = {}
+    cls = lmm.Minimizer
+    orig_init, orig_min = cls.__init__, cls.minimize
 
-    class Recorder:
-        def __init__(self, fcn, params, fcn_args=None, **kwargs):
-            cap.update(fcn=fcn, params=params.copy() if hasattr(params, "copy") else params, fcn_args=fcn_args, kwargs=kwargs)
+    def init(self, userfcn, params, *a, **k):
+        orig_init(self, userfcn, params, *a, **k)
+        if "minim" not in cap:
+            cap.update(minim=self, fcn=self.userfcn, params=params.copy(), call_args=tuple(self.userargs or ()),
+                       call_kws=dict(self.userkws or {}))
 
-        def minimize(self, *a, **k):
-            cap["minimize"] = (a, k)
+    def minimize(self, *a, **k):
+        cap["minimize"] = (a, k)
+        if not spy:
             raise _Captured
+        return orig_min(self, *a, **k)
 
-    class Spy(lmfit.Minimizer):
-        def __init__(self, fcn, params, fcn_args=None, **kwargs):
-            cap.update(fcn=fcn, params=params.copy(), fcn_args=fcn_args, kwargs=kwargs)
-            super().__init__(fcn, params, fcn_args=fcn_args, **kwargs)
-
-    if not hasattr(fpm, "Minimizer"):
-        raise tlc.MachineryError("forecast_pressure no longer refers to lmfit.Minimizer by that name; the recorder cannot bind")
-    orig = fpm.Minimizer
-    fpm.Minimizer = Spy if spy else Recorder
+    cls.__init__, cls.minimize = init, minimize
     result = None
     try:
         with warnings.catch_warnings():
@@ -119,8 +119,58 @@ def call_fit(prod, pvt, *, spy: bool, positional: bool = False, **kw):
     except Exception as ex:  # noqa: BLE001
         outcome = f"{type(ex).__name__}: {ex}"
     finally:
-        fpm.Minimizer = orig
+        cls.__init__, cls.minimize = orig_init, orig_min
     return outcome, cap, result
+
+
+def evaluate(cap: dict, params):
+    """The objective the library handed to lmfit, evaluated at `params` exactly as lmfit would call it."""
+    with warnings.catch_warnings():
+        warnings.simplefilter("ignore")
+        return np.asarray(cap["fcn"](params, *cap["call_args"], **cap["call_kws"]), dtype=float)
+
+
+def observe(cap: dict) -> dict | None:
+    """What the fit is run on, read off the library's own forward simulation: the objective is evaluated at the initial parameter
+    values (twice, with M and 2 M) while SinglePhaseReservoir.simulate is watched.  Returns days (re-indexed time axis = simulated
+    time x tau), pf (the frac-face history handed to simulate), cum (cumulative production = M rf - objective, with rf from the
+    difference of the two evaluations), n, or None when no Minimizer was constructed."""
+    if "fcn" not in cap:
+        return None
+    from bluebonnet.flow import reservoir as rmod  # noqa: PLC0415
+
+    seen: list = []
+    klass = rmod.SinglePhaseReservoir
+    orig = klass.simulate
+
+    def simulate(self, time, pressure_fracface=None):
+        seen.append((np.array(time, dtype=float, copy=True), None if pressure_fracface is None else np.array(pressure_fracface, dtype=float, copy=True)))
+        return orig(self, time, pressure_fracface)
+
+    klass.simulate = simulate
+    try:
+        p1 = cap["params"].copy()
+        m1, tau = float(p1["M"].value), float(p1["tau"].value)
+        o1 = evaluate(cap, p1)
+        nsim = len(seen)
+        p2 = cap["params"].copy()
+        p2["M"].set(value=2.0 * m1, min=-np.inf, max=np.inf)
+        o2 = evaluate(cap, p2)
+    finally:
+        klass.simulate = orig
+    if nsim != 1 or seen[0][1] is None:
+        return {"error": f"one objective evaluation ran {nsim} variable-pressure simulations"}
+    t, pf = seen[0]
+    with np.errstate(all="ignore"):
+        rf = (o2 - o1) / m1
+        cum = m1 * rf - o1
+    if not np.all(np.isfinite(cum)):
+        # missing pressures that were not filtered out make the simulation (and the objective) NaN: the cumulative production cannot
+        # be read back through it; if the objective is still called the classic way (days, production, table, history) the second
+        # argument is used, otherwise the production is simply not observable for this table
+        a = cap["call_args"]
+        cum = np.asarray(a[1], dtype=float) if len(a) == 4 and np.shape(a[1]) == np.shape(t) else None
+    return {"days": t * tau, "pf": pf, "cum": cum, "n": int(len(t)), "rf": rf}
 
 
 # ---- spec -> code -----------------------------------------------------------------------------------------------------
@@ -153,21 +203,29 @@ def check_case(cs: dict, const: dict, pvt) -> list[tuple[str, str]]:
         if out["n"] < 2:
             return []  # fewer than two rows reach the fit: outside the property
         return [("Outcome", f"{desc}: fit_production_pressure raised {outcome}")]
-    if "fcn_args" not in cap:
-        raise tlc.MachineryError("fit_production_pressure returned without constructing a Minimizer")
-    args = cap["fcn_args"]
-    if len(args) != 4:
-        raise tlc.MachineryError(f"unexpected fcn_args of length {len(args)}")
-    time, cum, _pvt, pf = args
+    if out["n"] < 2:
+        return []  # fewer than two rows reach the fit: no history to simulate, outside the property
+    try:
+        ob = observe(cap)
+    except Exception as ex:  # noqa: BLE001  the library's objective raising at its own initial parameter values is an observation
+        return [("Outcome", f"{desc}: the objective handed to lmfit raised {type(ex).__name__}: {ex}")]
+    if ob is None:
+        return [("Outcome", f"{desc}: fit_production_pressure returned without setting up an lmfit minimisation")]
+    if "error" in ob:
+        return [("ObjectiveIsLibraryModel", f"{desc}: {ob['error']}")]
+    time, cum, pf = ob["days"], ob["cum"], ob["pf"]
     bad = []
-    time, cum, pf = np.asarray(time, dtype=float), np.asarray(cum, dtype=float), np.asarray(pf, dtype=float)
     want_t = np.asarray(out["time"], dtype=float)
     want_c = G_UNIT * np.asarray(out["cum"], dtype=float)
     want_p = np.asarray([P_UNIT * x if x else math.nan for x in out["pf"]], dtype=float)
-    if not (time.shape == want_t.shape and np.array_equal(time, want_t)):
-        bad.append(("TimeReindexed", f"{desc}: time passed to the objective is {time.tolist()}, specification {want_t.tolist()}"))
-    if not (cum.shape == want_c.shape and np.array_equal(cum, want_c)):
-        bad.append(("FilterExcludes", f"{desc}: cumulative production passed to the objective is {cum.tolist()}, "
+
+    def same(a, b):   # time and cumulative production are read back through the simulation (x tau, M rf - objective): rounding level
+        return a.shape == b.shape and bool(np.all(np.abs(a - b) <= 1e-10 * max(1.0, float(np.max(np.abs(b))) if b.size else 1.0)))
+
+    if not same(time, want_t):
+        bad.append(("TimeReindexed", f"{desc}: the simulation runs on times {time.tolist()}, specification {want_t.tolist()}"))
+    if cum is not None and not same(cum, want_c):
+        bad.append(("FilterExcludes", f"{desc}: cumulative production in the objective is {cum.tolist()}, "
                     f"specification {want_c.tolist()}"))
     if out["pfDefined"] and not (pf.shape == want_p.shape and np.array_equal(pf, want_p, equal_nan=True)):
         clause = "Window1Identity" if pf.shape == want_p.shape and cs["window"] == 1 else "FilterExcludes"
@@ -385,7 +443,14 @@ def fit_events(ref: dict, seed, count: int) -> list[dict]:
               "pexp_q": quant.q(float(np.nanmax(pres[kept].astype(float))), 0.0, pimax),
               "tq": list(quant.NANQ), "mq": list(quant.NANQ),
               "cprev_q": list(quant.NANQ), "pq": list(quant.NANQ), "pfmax_q": list(quant.NANQ), "w1_e15": -1, "excl_e15": -1, "raw": raw}
-        if "fcn_args" in cap and filt and not kept.all():
+        ob = None
+        try:
+            ob = observe(cap)
+        except Exception:  # noqa: BLE001  (judged through the outcome of the fit itself)
+            ob = None
+        if ob is not None and "error" in ob:
+            ob = None
+        if ob is not None and filt and not kept.all():
             # "excluded" means without influence: other readings on the excluded rows (a pressure on a shut-in day, a rate on a day
             # without a pressure) must leave everything the minimiser is given bit-identical
             gas2, pres2 = gas.copy(), np.asarray(pres, dtype=float).copy()
@@ -396,17 +461,26 @@ def fit_events(ref: dict, seed, count: int) -> list[dict]:
             prod2["Gas"] = gas2
             prod2["Pressure"] = pres2.astype(pres.dtype)
             _o2, cap2, _r2 = call_fit(prod2, pvt, spy=False, **kw)
-            if "fcn_args" in cap2:
-                t1, c1, _p1, f1 = cap["fcn_args"]
-                t2, c2, _p2, f2 = cap2["fcn_args"]
+            try:
+                ob2 = observe(cap2)
+            except Exception:  # noqa: BLE001
+                ob2 = None
+            if ob2 is not None and "error" not in ob2 and ob["cum"] is not None and ob2["cum"] is not None:
+                t1, c1, f1 = ob["days"], ob["cum"], ob["pf"]
+                t2, c2, f2 = ob2["days"], ob2["cum"], ob2["pf"]
                 ev["excl_e15"] = max(arr_e15(t1, t2, max(1.0, float(len(t1)))), arr_e15(c1, c2, float(np.max(np.abs(c1)))),
                                      arr_e15(f1, f2, float(np.max(np.abs(f1)))))
             else:
                 ev["excl_e15"] = quant.CAP
-        if "fcn_args" in cap:
-            time, cum, _p, pfa = cap["fcn_args"]
+        if ob is not None:
+            time, cum, pfa = ob["days"], ob["cum"], ob["pf"]
             ev["n"] = int(len(time))
-            ev["cprev_q"] = quant.q(float(np.asarray(cum, dtype=float)[-2]), 0.0, inplace)
+            # the declared lower limit of M (the cumulative production is read back through the simulation, to rounding only)
+            mmin = float(cap["params"]["M"].min) if "M" in cap["params"] else math.nan
+            ev["cprev_q"] = quant.q(mmin, 0.0, inplace)
+            raw["declared_limits"] = {k: [float(cap["params"][k].min), float(cap["params"][k].max)] for k in cap["params"]}
+            if cum is not None and abs(mmin - float(cum[-2])) > 1e-9 * max(1.0, abs(float(cum[-2]))):
+                ev["outcome"] = f"declared lower limit of M is {mmin!r}, the second-to-last cumulative production is {float(cum[-2])!r}"
             ev["pfmax_q"] = quant.q(float(np.max(np.asarray(pfa, dtype=float))), 0.0, pimax)
             if window in (None, 1):
                 through = pres[(gas > 0) & ~np.isnan(pres)] if filt else pres
@@ -457,7 +531,7 @@ def pipeline_zero_events(ref: dict, seed, count: int) -> list[dict]:
             else:
                 with warnings.catch_warnings():
                     warnings.simplefilter("ignore")
-                    obj = np.asarray(cap["fcn"](p, *cap["fcn_args"]), dtype=float)
+                    obj = evaluate(cap, p)
                 ev["zero_e15"] = arr_e15(obj, np.zeros_like(obj), m_g)
         except Exception as ex:  # noqa: BLE001
             ev["outcome"] = f"{type(ex).__name__}: {ex}"
